@@ -42,10 +42,14 @@ def h64(obj) -> int:
     return int.from_bytes(hashlib.blake2b(obj, digest_size=8).digest(), "big")
 
 
+_LIVE: list = []  # accumulators created in this process (a crashing shard still reports what it had found)
+
+
 class Acc:
     """Accumulator a shard fills in while it runs its cases."""
 
     def __init__(self) -> None:
+        _LIVE.append(self)
         self.evaluations = 0
         self.sigs: set[int] = set()
         self.sigs_dropped = 0
@@ -149,6 +153,10 @@ def worker_main(pid: str, shard_file: str, out_file: str) -> int:
             out = acc.to_json()
     except BaseException:  # noqa: BLE001 - a crashed shard is inconclusive, say why
         out = {"crash": traceback.format_exc()}
+        # ... but violations it had already recorded are not lost with it
+        with_v = [a for a in _LIVE if a.violations]
+        if with_v:
+            out["partial"] = with_v[0].to_json()
     Path(out_file).write_text(json.dumps(jsonable(out)))
     return 0
 
@@ -193,6 +201,8 @@ def run_check(pid: str, tier: str, seed: int) -> int:
     for i, d in enumerate(shards):
         if isinstance(d, dict) and "debuglog" not in d and every:
             d["debuglog"] = (i % every) == every - 1
+            if every >= 3 and (i % every) == every - 2 and "loglevel" not in d:
+                d["loglevel"] = "warning"  # the library's default level, records formatted
     # co-resident shards (see worker_main): pairs of shards of different protocol versions run in one
     # process, in both orders; a check may choose the pairs itself (CORESIDENT(shards) -> [[i, j], ...])
     pairs = []
@@ -267,6 +277,8 @@ def run_check(pid: str, tier: str, seed: int) -> int:
             out = json.loads(of.read_text())
             if "crash" in out:
                 inconclusive.append(f"shard {i} crashed: {out['crash'][-1500:]}")
+                if "partial" in out:
+                    results[i] = out["partial"]
                 continue
             if "multi" in out:
                 for k, o in enumerate(out["multi"]):
